@@ -144,6 +144,14 @@ class ResumeMonitor(Monitor):
                 takes_self = any(strip(a).get("k") == "ref" and strip(a).get("name") == "self" for a in n.get("a", []))
                 if takes_self and name not in RESUME_ALLOWED_CALLS:
                     return Viol("`%s(self, …)` runs before it is known whether a parse is being resumed" % name, pt)
+                # a helper handed the address of a parser field may modify it (reusable_node_clear(&self->reusable_node), array_clear(&self->x) …)
+                if name not in RESUME_ALLOWED_CALLS:
+                    for a in n.get("a", []):
+                        a = strip(a)
+                        if a.get("k") == "un" and a.get("op") == "&" and a.get("mut", True):
+                            f = writes_record(a["e"], "TSParser")
+                            if f and f not in RESUME_ALLOWED_FIELDS:
+                                return Viol("`%s(&self->%s, …)` may modify parser field `%s` before it is known whether a parse is being resumed" % (name, f, f), pt)
         return m
 
     def edge(self, m, bid, edge, cond, truth, s):
@@ -413,6 +421,25 @@ def rule_p6(ctx, F):
     ctx.floor("locals live at the ts_parser__advance call", len(live), 3)
 
 
+def rule_p7(ctx, F):
+    """P7: the column a scanner is told does not depend on where a parse was suspended.  The running column counter and
+    the from-the-line-start recomputation disagree in places (a range that starts mid-line), so which one answers
+    get_column() must not change because ts_parser_parse was re-entered: ts_lexer_set_input re-seeks to the *current*
+    position on every call, and that seek must leave the counter alone — it is dropped only when the position moves."""
+    fn = ctx.need_fn(F, "ts_lexer_goto", "P7")
+    if not fn:
+        return
+    inv = [pt for pt, c in fn.calls() if callee_name(c) == "ts_lexer__invalidate_column_data"] + [pt for pt, n in find(fn, "self->column_data.valid = 0")]
+    if not inv:
+        ctx.bad("P7", "ts_lexer_goto:column-cache", "ts_lexer_goto no longer invalidates the column counter when it moves the lexer")
+        return
+    ctx.gate("P7", fn, inv, [("the column counter is dropped only when the position really changes (a resumed parse re-seeks to where it is)",
+                             [("position.bytes != self->current_position.bytes", True), ("position.bytes == self->current_position.bytes", False)])], accept_desc="invalidating the column counter")
+    mv = [pt for pt, n in find(fn, "self->current_position = position")]
+    ctx.before("P7", "ts_lexer_goto:compare-before-move", fn, mv, inv + [pt for pt, n in find(fn, "position.bytes != self->current_position.bytes")] + [pt for pt, n in find(fn, "position.bytes == self->current_position.bytes")],
+               "the comparison with the old position happens before the position is overwritten")
+
+
 def rule_p5(ctx, F):
     """P5: chunking and encoding.  A chunk is always requested for the lexer's current position; the
     decoder is the one of the declared encoding; the ASCII short-cut applies to UTF-8 only; the chunk is
@@ -465,6 +492,7 @@ def run(ctx):
         rule_p4(ctx, F)
         rule_p5(ctx, F)
         rule_p6(ctx, F)
+        rule_p7(ctx, F)
     return ctx.finish(
         "Field-coverage and ordering rules over parser.c/lexer.c: each of TSParser's fields is classified and every RESET field is re-initialised on all paths "
         "of ts_parser_reset; completion and language change pass ts_parser_reset; a resumed parse stores to no parser state before the loop; a new input discards "
